@@ -3,6 +3,7 @@ package harness
 // C09 — incremental rebuilds and watch mode are equivalent to clean builds (DESIGN §4.2).
 
 import (
+	"path"
 	"fmt"
 	"strings"
 
@@ -144,6 +145,39 @@ func scenarioC09(rc *RunCtx) *Violation {
 				}
 				return &Violation{Class: "rebuild-differs-" + class, Key: key,
 					Detail: fmt.Sprintf("rebuild %d of the context differs from a fresh build of the same tree: %s; history: %s", r.Step, detail, strings.Join(hist, " || "))}
+			}
+		}
+		// Oracle A2: a fresh build leaves every reported output on disk with the reported bytes;
+		// so must the rebuild (the returned results alone do not show a write that was skipped
+		// because of state kept from earlier builds of the context)
+		if r.Opts.Write && buildOK(r.Res) && buildOK(f.Res) {
+			lookup := func(rec *BuildRec, pth string) (string, bool) {
+				if v, ok := rec.After[pth]; ok {
+					return v, true
+				}
+				v, ok := rec.After[rec.Snap.RealPath(pth)]
+				return v, ok
+			}
+			freshOK := true
+			for _, of := range f.Res.OutputFiles {
+				if got, ok := lookup(f, path.Clean(of.Path)); !ok || got != string(of.Contents) {
+					freshOK = false
+				}
+			}
+			if freshOK {
+				rc.Probe("rebuild_disk_checked")
+				for _, of := range r.Res.OutputFiles {
+					got, ok := lookup(r, path.Clean(of.Path))
+					if !ok || got != string(of.Contents) {
+						what := "is not on disk"
+						if ok {
+							what = fmt.Sprintf("is on disk with %d other bytes", len(got))
+						}
+						return &Violation{Class: "rebuild-differs-on-disk", Key: "on-disk",
+							Detail: fmt.Sprintf("rebuild %d of the context reports output %s (%d bytes), which %s afterwards, while a fresh build of the same tree leaves all its outputs on disk; history: %s",
+								r.Step, of.Path, len(of.Contents), what, strings.Join(hist, " || "))}
+					}
+				}
 			}
 		}
 		// Oracle B: every edit that changes the fresh result must be reported dirty
